@@ -169,10 +169,19 @@ def dynamic_worker(item):
     addressed CA is still invoked once for that request, and the next request reaches exactly those still registered"""
     from ..net import Bus, Stack
     acc = Acc()
+    class App:
+        # an application object whose request callback is a bound method: every access to app.on_request makes a new, equal object
+        def __init__(self, fn):
+            self.fn = fn
+
+        def on_request(self, src, dest, pgn):
+            self.fn(src, dest, pgn)
+
     for k in range(3):
+      for style in ('function', 'method'):
         for action in ('unsub_self', 'unsub_next', 'unsub_prev'):
             for da in (0x20, 255):
-                sc = {'kind': 'dynamic', 'k': k, 'action': action, 'da': da}
+                sc = {'kind': 'dynamic', 'k': k, 'action': action, 'da': da, 'callbacks': style}
                 w = rt.World()
                 rt.activate(w)
                 try:
@@ -194,12 +203,17 @@ def dynamic_worker(item):
                                 t = {'unsub_self': k, 'unsub_next': (k + 1) % 3, 'unsub_prev': (k - 1) % 3}[action]
                                 st['touched'] = t
                                 if reg[t]:
-                                    sca.unsubscribe_request(cbs[t])
+                                    sca.unsubscribe_request(cbs[t]())
                                     reg[t] = False
                         return cb
                     for j in range(3):
-                        cbs.append(make(j))
-                        sca.subscribe_request(cbs[j])
+                        if style == 'method':
+                            app = App(make(j))
+                            cbs.append(lambda app=app: app.on_request)
+                        else:
+                            f = make(j)
+                            cbs.append(lambda f=f: f)
+                        sca.subscribe_request(cbs[j]())
                     w.run_for(0.005)
                     probs = []
                     for n in range(2):
@@ -222,7 +236,7 @@ def dynamic_worker(item):
                         acc.violation("a request callback is not invoked exactly once while another one unsubscribes inside its call", sc, None, probs[:3])
                 finally:
                     w.shutdown()
-    acc.sample({'dynamic': 'request callback k of 3 unsubscribes itself / its neighbour inside the call'})
+    acc.sample({'dynamic': 'request callback k of 3 (plain functions / bound methods of application objects) unsubscribes itself / its neighbour inside the call'})
     return acc
 
 
